@@ -26,6 +26,7 @@ from .core import AnalysisError, Program
 from .report import VERIF
 
 SEEDED_DIR = os.path.join(VERIF, "seeded")
+TWINS_DIR = os.path.join(VERIF, "twins")
 
 
 def _run_on(prop: str, prog: Program):
@@ -80,7 +81,7 @@ def _one_mutant(args):
 
 def _one_seeded(args):
     prop, src_dir, name, baseline = args
-    patch = os.path.join(SEEDED_DIR, name, "patch.diff")
+    patch = os.path.join(TWINS_DIR if name.startswith("twin:") else SEEDED_DIR, name.split(":", 1)[-1], "patch.diff")
     tmp = tempfile.mkdtemp(prefix="serifscan-seed-")
     try:
         dst = os.path.join(tmp, "src", "serif")
@@ -98,6 +99,13 @@ def _one_seeded(args):
         return (name, status, new, msgs)
     finally:
         shutil.rmtree(tmp, ignore_errors=True)
+
+
+def refactor_twins() -> List[str]:
+    """Behaviour-preserving refactorings (twins/<name>/patch.diff): every check must stay silent on every one of them."""
+    if not os.path.isdir(TWINS_DIR):
+        return []
+    return sorted(n for n in os.listdir(TWINS_DIR) if os.path.exists(os.path.join(TWINS_DIR, n, "patch.diff")))
 
 
 def seeded_for(prop: str) -> List[str]:
@@ -125,12 +133,15 @@ def run_selftest(prop: str, prog: Program, ctx, seed: int = 0) -> dict:
     jobs = [(prop, sources, prog.root, m, baseline) for m in mutants]
     seeded = seeded_for(prop)
     sjobs = [(prop, prog.root, name, baseline) for name in seeded]
-    workers = min(16, max(1, len(jobs) + len(sjobs)))
-    results, sresults = [], []
-    if jobs or sjobs:
+    rtwins = refactor_twins()
+    tjobs = [(prop, prog.root, "twin:" + name, baseline) for name in rtwins]
+    workers = min(16, max(1, len(jobs) + len(sjobs) + len(tjobs)))
+    results, sresults, tresults = [], [], []
+    if jobs or sjobs or tjobs:
         with ProcessPoolExecutor(max_workers=workers) as ex:
             results = list(ex.map(_one_mutant, jobs))
             sresults = list(ex.map(_one_seeded, sjobs))
+            tresults = list(ex.map(_one_seeded, tjobs))
     by_id = {m["id"]: m for m in mutants}
     st = {"armed": 0, "fired": 0, "skipped": 0, "twins": 0, "twins_silent": 0, "analysis_error": 0,
           "missed": [], "noisy": [], "details": [], "seeded": len(seeded), "seeded_fired": 0, "seeded_details": []}
@@ -170,4 +181,13 @@ def run_selftest(prop: str, prog: Program, ctx, seed: int = 0) -> dict:
         else:
             st["seeded_details"].append({"seeded": name, "result": f"{status}: no new finding", "msgs": msgs[:1]})
             st["missed"].append(f"seeded/{name}: {status}, no new finding")
+    st["refactor_twins"] = len(rtwins)
+    st["refactor_twins_silent"] = 0
+    st["refactor_twin_details"] = []
+    for name, status, new, msgs in tresults:
+        if status == "ok" and not new:
+            st["refactor_twins_silent"] += 1
+        else:
+            st["noisy"].append(f"{name}: {status} {new[:2]} {msgs[:1]}")
+            st["refactor_twin_details"].append({"twin": name, "result": f"NOISY {status}", "new": new[:3], "msgs": msgs[:2]})
     return st
